@@ -1,5 +1,6 @@
 import L21.Proofs.Gds
 import L21.Proofs.GdsFuel
+import L21.Proofs.GdsImage
 /-
 C10 — The GDSII reader never crashes or hangs on any input bytes.
 
@@ -143,9 +144,39 @@ theorem c10_parser_fuel (n : Nat) (rs : List Rec) :
   ⟨fun v d lb => parseLibBody_fuel_any v d lb rs n, fun acc => parseElems_fuel_any acc rs n,
    fun k b => parseElem_fuel_any k b rs n⟩
 
+theorem c01_roundtrip_aux (l : Library) (bs : Bytes) (h : enc l = .ok bs) (hshape : libOk l = true)
+    (hrange : ∀ r ∈ libRecs l, recOk r) : dec bs = .ok (canonLib l) := dec_enc l bs h hshape hrange
+
+/-- **every library the reader returns can be written again** — for ANY byte string (bytes are
+    numbers below 256).  Each record of the returned tree was copied from a record of the input —
+    whose integers, flags and strings are therefore in range, whose reals passed the reader's
+    representability check (fix 353fd70), whose length fitted a 16-bit length field — or is one of
+    the payload-free records / STRANS flag records the writer synthesises. -/
+theorem c10_rewritable (bs : Bytes) (l : Library) (hb : BytesOk bs) (h : dec bs = .ok l) : ∃ bs', enc l = .ok bs' := by
+  obtain ⟨_, hg⟩ := dec_image bs l hb h
+  exact encRecords_ok _ (fun r hr => (hg r hr).2)
+
+/-- **… and read back to the same value** (−0.0 is read as +0.0, both are the all-zero real).
+    `_partial`: the hypothesis `hreal` excludes exactly the reals that C01/C15 exclude — finite
+    doubles below 16^-65 that happen to be exact denormalised GDSII reals; the reader does return
+    such values (correspondence and the C10 oracle cover them), the theorem does not. -/
+theorem c10_reencodable_partial (bs : Bytes) (l : Library) (hb : BytesOk bs) (h : dec bs = .ok l)
+    (hreal : (libRecs l).all realsOkB = true) :
+    ∃ bs', enc l = .ok bs' ∧ dec bs' = .ok (canonLib l) := by
+  obtain ⟨hshape, hg⟩ := dec_image bs l hb h
+  obtain ⟨bs', he⟩ := encRecords_ok _ (fun r hr => (hg r hr).2)
+  refine ⟨bs', he, c01_roundtrip_aux l bs' he hshape ?_⟩
+  intro r hr
+  exact recOk_of_B r (recOkB_of_parts r (hg r hr).1 (List.all_eq_true.1 hreal r hr))
+
 /-! non-vacuity -/
 example : dec [0,6,0,2,0,3,0,28,1,2,0,0,0,0,0,0,0,0,0,0,0,0,0,0,0,0,0,0,0,0,0,0,0,0,0,6,2,6,97,0,0,20,3,5,62,65,137,55,75,198,167,240,57,68,184,47,160,155,90,84,0,4,4,0]
     = .ok ⟨[0x61], 3, [0,0,0,0,0,0,0,0,0,0,0,0], (0x3f50624dd2f1a9fc, 0x3e112e0be826d695), []⟩ := by decide
+/-- the theorems' hypotheses are met by the stream above: it is re-encodable by `c10_reencodable_partial` -/
+example : ∃ bs', enc ⟨[0x61], 3, [0,0,0,0,0,0,0,0,0,0,0,0], (0x3f50624dd2f1a9fc, 0x3e112e0be826d695), []⟩ = .ok bs' ∧
+    dec bs' = .ok (canonLib ⟨[0x61], 3, [0,0,0,0,0,0,0,0,0,0,0,0], (0x3f50624dd2f1a9fc, 0x3e112e0be826d695), []⟩) :=
+  c10_reencodable_partial [0,6,0,2,0,3,0,28,1,2,0,0,0,0,0,0,0,0,0,0,0,0,0,0,0,0,0,0,0,0,0,0,0,0,0,6,2,6,97,0,0,20,3,5,62,65,137,55,75,198,167,240,57,68,184,47,160,155,90,84,0,4,4,0] _
+    (by intro b hb; revert b; decide) (by decide) (by decide)
 -- truncated before ENDLIB: error
 example : dec [0,6,0,2,0,3, 0,28,1,2] = .err := by decide
 
